@@ -172,7 +172,7 @@ fn in_domain(s: &EnumSpec) -> bool {
 pub fn programs(tier: Tier) -> ProgramSet {
     let plan: Vec<(usize, usize)> = match tier {
         Tier::Quick => vec![(1, 2), (3, 1), (2, 2)],
-        Tier::Thorough => vec![(1, 3), (3, 2), (2, 3), (4, 1)],
+        Tier::Thorough => vec![(1, 3), (3, 2), (2, 3), (3, 3), (4, 1)],
     };
     let mut out = Vec::new();
     let mut excluded = 0u64;
